@@ -124,6 +124,12 @@ class Ctx:
         self.classes[cls] = self.classes.get(cls, 0) + n
 
     def over_budget(self):
+        from . import watchdog
+        if watchdog.STATE['tripped']:
+            # a spinning library thread is still burning a core in this process: stop generating
+            # (no shrinking either: every further case would cost the watchdog limit again)
+            self.inconclusive = True
+            return True
         if time.time() - self.t0 > self.budget_s:
             self.inconclusive = True
             return True
@@ -170,6 +176,10 @@ def run_given(ctx, strategy, body, max_examples, shrink_s=None, rounds=4, label=
 
         def test(value):
             if ctx.over_budget() and state['best'] is None:
+                raise BudgetExhausted()
+            from . import watchdog
+            if watchdog.STATE['tripped'] and state['best'] is not None:
+                state['gave_up'] = True      # no shrinking against a spinning library
                 raise BudgetExhausted()
             if state['first_fail_t'] is not None and \
                     time.time() - state['first_fail_t'] > shrink_s:
